@@ -124,6 +124,18 @@ Definition v0_finalized (i : v0in) : bool := v0_is_some (vi_fsig i) || v0_is_som
 Definition v0_unsigned_ok (t : tx) : bool :=
   forallb (fun i => negb (nonempty (in_script i)) && negb (nonempty (in_witness i))) (t_ins t).
 
+(* finalizer.go finalizeNonWitnessInput / finalizeWitnessInput: the input is replaced by
+   NewPsetInput(utxo) plus the final scripts: partial signatures, sighash type, redeem and witness
+   script, derivations and unknowns are all cleared (the scripts themselves are built by code
+   outside this model and are arguments here) *)
+Definition v0_finalize_in (i : v0in) (fsig fwit : option bytes) : v0in :=
+  mk_v0in (vi_nwu i) (vi_wu i) [] 0 None None [] fsig fwit [].
+Definition v0_finalize_at (p : v0pset) (n : nat) (fsig fwit : option bytes) : v0pset :=
+  mk_v0pset (vp_tx p)
+    (firstn n (vp_ins p) ++
+     match skipn n (vp_ins p) with [] => [] | i :: r => v0_finalize_in i fsig fwit :: r end)
+    (vp_outs p) (vp_unk p).
+
 (* ---------- serialize ---------- *)
 (* serializeKVpair: wire.WriteVarBytes(key) then wire.WriteVarBytes(value) *)
 Definition v0_kv (kv : bytes * bytes) : bytes := var_slice (fst kv) ++ var_slice (snd kv).
